@@ -23,6 +23,11 @@ pub enum Case {
   Arith { base: i64, unit: u8, arg: u32, sub: bool },
   /// Ordering of two in-range instants.
   Cmp { a: i64, b: i64 },
+  /// `from_unix(base)` then `checked_add`/`checked_sub` of a `Duration` read from its JSON form `[secs, nanos]`
+  /// (the only way to express negative and sub-second durations).
+  ArithJson { base: i64, secs: i64, nanos: i32, sub: bool },
+  /// `Timestamp::now_utc()` (the one constructor that starts from an instant with nanoseconds).
+  Now,
 }
 
 const UNITS: [(&str, i128); 5] = [
@@ -132,68 +137,75 @@ pub fn check(case: &Case, obs: &mut Obs) -> CheckResult {
       } else {
         obs.label("ref-not-rfc3339");
       }
-      let parsed = match catch(|| Timestamp::parse(s)) {
-        Ok(r) => r,
-        Err(p) => return obs.fail("parse-panics", format!("parse({s:?}) panicked: {}", p.msg)),
-      };
-      // every other route must agree with `parse`
+      // Every route that reads a string is held to the statement on its own: it fails, or it yields the instant the
+      // string denotes, as a value that passes the accepted-value battery. (Whether two routes accept the same
+      // strings outside RFC 3339 is not part of the statement; it is recorded as a class.)
       let json = serde_json::to_string(s).unwrap();
-      let routes: [(&str, Result<Result<Timestamp, identity_core::Error>, PanicInfo>); 3] = [
+      // the same JSON string with its first character escaped: the deserialiser cannot borrow it from the input
+      let escaped_json = match s.chars().next() {
+        Some(c) if (c as u32) < 0x10000 => format!("\"\\u{:04x}{}", c as u32, &json[1 + serde_json::to_string(&c.to_string()).unwrap().len() - 2..]),
+        _ => json.clone(),
+      };
+      type R = Result<Result<Timestamp, identity_core::Error>, PanicInfo>;
+      let routes: [(&str, R); 8] = [
+        ("parse", catch(|| Timestamp::parse(s))),
         ("from_str", catch(|| Timestamp::from_str(s))),
-        ("try_from", catch(|| Timestamp::try_from(s.as_str()))),
-        ("serde", catch(|| Timestamp::from_json(&json))),
+        ("try_from(&str)", catch(|| Timestamp::try_from(s.as_str()))),
+        ("try_from(String)", catch(|| Timestamp::try_from(s.clone()))),
+        ("from_json", catch(|| Timestamp::from_json(&json))),
+        ("from_json(escaped)", catch(|| Timestamp::from_json(&escaped_json))),
+        ("from_json_value", catch(|| Timestamp::from_json_value(serde_json::Value::String(s.clone())))),
+        ("from_json_slice", catch(|| Timestamp::from_json_slice(json.as_bytes()))),
       ];
+      let mut accepted = 0usize;
+      let n_routes = routes.len();
       for (name, r) in routes {
+        let r = match r {
+          Err(p) => return obs.fail("parse-panics", format!("{name}({s:?}) panicked: {}", p.msg)),
+          Ok(r) => r,
+        };
         match r {
-          Err(p) => vfail!(obs, "parse-panics", "{name}({s:?}) panicked: {}", p.msg),
-          Ok(r) => {
-            let same = match (&r, &parsed) {
-              (Ok(a), Ok(b)) => a == b,
-              (Err(_), Err(_)) => true,
-              _ => false,
-            };
-            vensure!(
-              obs,
-              same,
-              "routes-disagree",
-              "{name}({s:?}) = {:?} but parse = {:?}",
-              r.as_ref().map(|t| t.to_unix()).map_err(|e| e.to_string()),
-              parsed.as_ref().map(|t| t.to_unix()).map_err(|e| e.to_string())
-            );
-          }
-        }
-      }
-      match parsed {
-        Err(_) => {
-          obs.label("rejected");
-          if let Some(r) = &reference {
-            if (MIN_UNIX..=MAX_UNIX).contains(&r.unix) && !r.leap {
-              obs.label("rejected-but-ref-valid");
+          Err(_) => {
+            if name == "parse" {
+              obs.label("rejected");
+              if let Some(r) = &reference {
+                if (MIN_UNIX..=MAX_UNIX).contains(&r.unix) && !r.leap {
+                  obs.label("rejected-but-ref-valid");
+                }
+              }
             }
           }
-          Ok(())
-        }
-        Ok(t) => {
-          obs.label("accepted");
-          battery(t, "parse", obs)?;
-          if let Some(r) = &reference {
-            let got = t.to_unix();
-            let ok = got == r.unix || (r.leap && got == r.unix - 1);
-            vensure!(
-              obs,
-              ok,
-              "wrong-instant",
-              "parse({s:?}) gives unix {got} ({}), the string denotes {} ({})",
-              format_unix(got),
-              r.unix,
-              format_unix(r.unix)
-            );
-          } else {
-            obs.label("accepted-unrecognised");
+          Ok(t) => {
+            accepted += 1;
+            if name == "parse" {
+              obs.label("accepted");
+            }
+            battery(t, name, obs)?;
+            if let Some(r) = &reference {
+              let got = t.to_unix();
+              let ok = got == r.unix || (r.leap && got == r.unix - 1);
+              if r.leap {
+                obs.label("accepted-leap-second");
+              }
+              vensure!(
+                obs,
+                ok,
+                "wrong-instant",
+                "{name}({s:?}) gives unix {got} ({}), the string denotes {} ({})",
+                format_unix(got),
+                r.unix,
+                format_unix(r.unix)
+              );
+            } else if name == "parse" {
+              obs.label("accepted-unrecognised");
+            }
           }
-          Ok(())
         }
       }
+      if accepted != 0 && accepted != n_routes {
+        obs.label("routes-differ-in-acceptance");
+      }
+      Ok(())
     }
     Case::FromUnix { s } => {
       let inside = (MIN_UNIX..=MAX_UNIX).contains(s);
@@ -258,6 +270,65 @@ pub fn check(case: &Case, obs: &mut Obs) -> CheckResult {
       if let Some(t2) = r {
         battery(t2, op, obs)?;
       }
+      Ok(())
+    }
+    Case::Now => {
+      let t = match catch(Timestamp::now_utc) {
+        Ok(t) => t,
+        Err(p) => return obs.fail("now-panics", format!("now_utc() panicked: {}", p.msg)),
+      };
+      obs.nontrivial();
+      battery(t, "now_utc", obs)
+    }
+    Case::ArithJson { base, secs, nanos, sub } => {
+      let t = match Timestamp::from_unix(*base) {
+        Ok(t) => t,
+        Err(_) => {
+          obs.discard("base-rejected");
+          return Ok(());
+        }
+      };
+      let text = format!("[{secs},{nanos}]");
+      let d: Duration = match catch(|| Duration::from_json(&text)) {
+        Ok(Ok(d)) => d,
+        Ok(Err(_)) => {
+          obs.discard("duration-json-rejected");
+          return Ok(());
+        }
+        Err(p) => return obs.fail("arith-panics", format!("Duration::from_json({text}) panicked: {}", p.msg)),
+      };
+      const NS: i128 = 1_000_000_000;
+      let delta = *secs as i128 * NS + *nanos as i128;
+      let exact = if *sub { *base as i128 * NS - delta } else { *base as i128 * NS + delta };
+      let (lo, hi) = (exact.div_euclid(NS), -((-exact).div_euclid(NS)));
+      let inside = |v: i128| (MIN_UNIX as i128..=MAX_UNIX as i128).contains(&v).then_some(v as i64);
+      // whole seconds: integer arithmetic; a sub-second part may be cut off in either direction
+      let allowed = [inside(lo), inside(hi)];
+      obs.label(match (delta < 0, delta % NS != 0) {
+        (false, false) => "json-duration:whole",
+        (true, false) => "json-duration:negative",
+        (false, true) => "json-duration:fraction",
+        (true, true) => "json-duration:negative-fraction",
+      });
+      obs.label(if allowed.contains(&None) { "arith-leaves-range" } else { "arith-in-range" });
+      obs.nontrivial();
+      let op = if *sub { "checked_sub" } else { "checked_add" };
+      let r = match catch(|| if *sub { t.checked_sub(d) } else { t.checked_add(d) }) {
+        Ok(r) => r,
+        Err(p) => return obs.fail("arith-panics", format!("{base}.{op}(duration {text}) panicked: {}", p.msg)),
+      };
+      if let Some(t2) = r {
+        // the value handed out is a timestamp like any other
+        battery(t2, op, obs)?;
+      }
+      vensure!(
+        obs,
+        allowed.contains(&r.map(|t| t.to_unix())),
+        "checked-arith-mismatch",
+        "{base}.{op}(duration {text}) = {:?}, arithmetic on seconds says {:?}",
+        r.map(|t| t.to_unix()),
+        allowed
+      );
       Ok(())
     }
     Case::Cmp { a, b } => {
@@ -335,6 +406,26 @@ fn grid() -> impl Iterator<Item = Case> {
   })
 }
 
+/// Leap-second spellings (seconds field 60) at month ends, in UTC and carried by offsets, with the fraction lengths
+/// and designator spellings of the grid.
+fn leap_grid() -> impl Iterator<Item = Case> {
+  let stems = [
+    "2016-12-31T23:59:60",
+    "1972-06-30T23:59:60",
+    "0000-01-31T23:59:60",
+    "9999-12-31T23:59:60",
+    "9999-11-30T23:59:60",
+    "2017-01-01T00:59:60",
+    "2016-12-31T18:59:60",
+    "2016-12-30T23:59:60",
+    "2016-12-31T23:58:60",
+  ];
+  let tails = ["Z", "z", "+00:00", "-00:00", "+01:00", "-05:00", ".0Z", ".5Z", ".999999999Z", ".5+01:00"];
+  stems
+    .into_iter()
+    .flat_map(move |stem| tails.into_iter().map(move |tail| Case::Parse { s: format!("{stem}{tail}") }))
+}
+
 fn unix_grid() -> impl Iterator<Item = Case> {
   let around = |c: i64| (-3..=3).map(move |d| c.saturating_add(d));
   around(MIN_UNIX)
@@ -362,6 +453,43 @@ fn arith_grid() -> impl Iterator<Item = Case> {
       })
     })
   })
+}
+
+fn arith_json_grid() -> impl Iterator<Item = Case> {
+  let bases = [MIN_UNIX, MIN_UNIX + 1, -1, 0, 1, 951782400, MAX_UNIX - 1, MAX_UNIX];
+  let durations: [(i64, i32); 14] = [
+    (0, 0),
+    (1, 0),
+    (-1, 0),
+    (0, 1),
+    (0, -1),
+    (0, 500_000_000),
+    (0, -500_000_000),
+    (1, 500_000_000),
+    (-1, -500_000_000),
+    (0, 999_999_999),
+    (86_400, 0),
+    (-86_400, 0),
+    (i64::MAX, 0),
+    (i64::MIN, 0),
+  ];
+  std::iter::once(Case::Now).chain(bases.into_iter().flat_map(move |base| {
+    durations.into_iter().flat_map(move |(secs, nanos)| {
+      [false, true]
+        .into_iter()
+        .map(move |sub| Case::ArithJson { base, secs, nanos, sub })
+    })
+  }))
+}
+
+fn arith_json_strategy() -> impl Strategy<Value = Case> {
+  (
+    base_strategy(),
+    prop_oneof![3 => -100_000i64..=100_000, 2 => -400_000_000_000i64..=400_000_000_000, 1 => any::<i64>()],
+    prop_oneof![2 => Just(0i32), 2 => -999_999_999i32..=999_999_999, 1 => any::<i32>()],
+    any::<bool>(),
+  )
+    .prop_map(|(base, secs, nanos, sub)| Case::ArithJson { base, secs, nanos, sub })
 }
 
 fn year_strategy() -> impl Strategy<Value = i64> {
@@ -472,6 +600,7 @@ pub fn run(ctx: &mut Ctx) {
   ctx.assume("strings the reference reader does not recognise as RFC 3339 may be accepted or rejected; accepted ones still get the full accepted-value battery");
 
   ctx.exhaustive("grid", grid, check);
+  ctx.exhaustive("leap-grid", leap_grid, check);
   ctx.exhaustive("unix-grid", unix_grid, check);
   ctx.exhaustive("arith-grid", arith_grid, check);
   ctx.proptest("strings", ctx.pick(30_000, 2_000_000), string_strategy, check);
@@ -479,12 +608,18 @@ pub fn run(ctx: &mut Ctx) {
   ctx.proptest("from-unix", ctx.pick(10_000, 500_000), unix_strategy, check);
   ctx.proptest("arith", ctx.pick(20_000, 1_000_000), arith_strategy, check);
   ctx.proptest("cmp", ctx.pick(5_000, 200_000), cmp_strategy, check);
+  ctx.exhaustive("arith-json-grid", arith_json_grid, check);
+  ctx.proptest("arith-json", ctx.pick(10_000, 500_000), arith_json_strategy, check);
 
   ctx.require_class("grid:accepted", 1000);
   ctx.require_class("grid:rejected", 1000);
   ctx.require_class("strings:accepted", 100);
   ctx.require_class("instants:accepted", 1000);
   ctx.require_class("arith:arith-leaves-range", 10);
+  ctx.require_class("leap-grid:accepted-leap-second", 5);
+  for class in ["whole", "negative", "fraction", "negative-fraction"] {
+    ctx.require_class(&format!("arith-json:json-duration:{class}"), 100);
+  }
 }
 
 pub fn replay(v: &serde_json::Value, obs: &mut Obs) -> Result<CheckResult, String> {
